@@ -44,7 +44,7 @@ Proof.
 Qed.
 
 Section Unfold.
-  Variables (ct : ctable) (h : heap) (long : nat -> bool) (g : bool).
+  Variables (ct : ctable) (h : heap) (long : list nat -> nat -> bool) (g : bool).
 
   Lemma py_repr_S n act v :
     py_repr ct h long g (S n) act v =
@@ -83,7 +83,7 @@ Section Unfold.
             | MTrue => bindr (render true) (fun fs => Ok (RFull c true fs))
             | MNone =>
                 bindr (render false) (fun fs =>
-                  if long self
+                  if long act self
                   then bindr (render true) (fun fs' => Ok (RFull c true fs'))
                   else Ok (RFull c false fs))
             end
@@ -135,7 +135,7 @@ End Unfold.
 Section ReprTotal.
   Variable ct : ctable.
   Variable h : heap.
-  Variable long : nat -> bool.
+  Variable long : list nat -> nat -> bool.
   Hypothesis WF : wf_heap ct h.
 
   Notation H := (length h).
@@ -322,7 +322,7 @@ Section ReprTotal.
       - destruct (HD0 n act l [] v) as [r Er]; auto; [lia|]. rewrite Er. simpl. eauto. }
     destruct (R true) as [ft Et]. destruct (R false) as [ff Ef].
     destruct md; rewrite ?Et, ?Ef; simpl; eauto.
-    destruct (long l); rewrite ?Et; simpl; eauto.
+    destruct (long act l); rewrite ?Et; simpl; eauto.
   Qed.
 
   Lemma A_of m : B m -> C m -> A m.
@@ -382,7 +382,7 @@ Proof.
   - destruct (mapM _ vals) as [fs|] eqn:M; simpl in R; try discriminate.
     inversion R; subst. simpl. rewrite <- V. eapply mapM_fst; eauto.
   - destruct (mapM _ vals) as [fs|] eqn:M; simpl in R; try discriminate.
-    destruct (long l).
+    destruct (long act l).
     + destruct (mapM (fun xv => bindr (object_repr ct h long g n act l true [] (snd xv)) _) vals)
         as [fs'|] eqn:M'; simpl in R; try discriminate.
       inversion R; subst. simpl. rewrite <- V. eapply mapM_fst; eauto.
